@@ -1944,6 +1944,7 @@ class TemplateArgument(object):
         """Parse instantiation (ex. <int>) and set list of Declarations."""
         parser = declast.Parser(self.instantiation, namespace)
         self.asts = parser.template_argument_list()
+        parser.mustbe("EOF")
 
 
 ######################################################################
@@ -1970,6 +1971,7 @@ class FortranGeneric(object):
         """Parse argument list (ex. int arg1, float *arg2) and set list of Declarations."""
         parser = declast.Parser(self.generic, namespace)
         self.decls = parser.parameter_list()
+        parser.mustbe("EOF")
 
     def __repr__(self):
         return self.generic
